@@ -189,29 +189,9 @@ def gen_any(rng, i):
     for _ in range(3):
         T.append(T[rng.integers(5)] + rng.normal(0, 0.3, m) * scale); cls.append("random")
     T.append(c0 + Mt @ lbv - 0.05 * scale * np.abs(rng.normal(1, 0.3, m))); cls.append("below-baseline")
-    # near-boundary targets: bisect (LP oracle) between an interior capture and an outside point, then step
-    # outwards / inwards by a small multiple of the scale
-    for _ in range(3):
-        b_in = T[rng.integers(5)]
-        b_out = b_in + rng.normal(0, 1, m) * scale
-        t, _x = oracles.lp_feasible_residual(Mt, c0, lbv, ubv, b_out)
-        if t is None or t <= 1e-3 * scale:
-            continue
-        lo, hi = 0.0, 1.0
-        for _it in range(34):
-            mid = 0.5 * (lo + hi)
-            tm, _x = oracles.lp_feasible_residual(Mt, c0, lbv, ubv, b_in + mid * (b_out - b_in))
-            if tm is None:
-                break
-            if tm > 1e-12 * scale:
-                hi = mid
-            else:
-                lo = mid
-        d = (b_out - b_in) / np.linalg.norm(b_out - b_in)
-        cross = b_in + hi * (b_out - b_in)
-        step = [1e-3, 1e-4, 1e-5][rng.integers(3)] * scale
-        T.append(cross + step * d); cls.append("near-outside")
-        T.append(cross - step * d); cls.append("near-inside")
+    # near-boundary targets (LP-oracle bisection between an interior capture and an outside point)
+    for tgt, k in gen.near_boundary_targets(rng, Mt, c0, lbv, ubv, T[:5], scale, 3):
+        T.append(tgt); cls.append(k)
     s.update({"B": np.array(T), "X": X, "classes": cls, "mode": mode, "relative": bool(rng.integers(5) != 0)})
     return s
 
